@@ -12,8 +12,8 @@
                                 after a simulated loss, mutated packets, repacketised + padded multi-frame packets
            stdin                answer `silksyms packet …` lines (fresh decoder per line)
            search <seed> <n>    S4: decoder final range == encoder final range on n streams (no model involved)
-           corpusgen <dir>      write the self-reference corpus (packets + PCM of the tree being built)
-           corpuscheck <dir>    decode the corpus packets, compare PCM with the opus_compare metric          */
+           corpusgen <dir>      write the self-reference corpus (packets + 48 kHz PCM of the tree being built)
+           corpusdec <packets> <rate> <channels> <out.s16>   decode one corpus stream (compared by src/opus_compare.c) */
 #include "vcommon.h"
 #include <stdarg.h>
 #include <math.h>
@@ -753,6 +753,6 @@ int main(int argc, char **argv)
    else if (argc >= 4 && !strcmp(argv[1], "search")) run_search(strtoull(argv[2], 0, 10), atol(argv[3]));
    else if (argc >= 3 && !strcmp(argv[1], "corpusgen")) run_corpusgen(argv[2]);
    else if (argc >= 6 && !strcmp(argv[1], "corpusdec")) run_corpusdec(argv[2], atoi(argv[3]), atoi(argv[4]), argv[5]);
-   else { fprintf(stderr, "usage: c03_silksyms rand|real|search <seed> <n> | stdin\n"); return 64; }
+   else { fprintf(stderr, "usage: c03_silksyms rand|real|search <seed> <n> | stdin | corpusgen <dir> | corpusdec <pk> <rate> <ch> <out>\n"); return 64; }
    return 0;
 }
